@@ -1218,3 +1218,91 @@ def run(ctx, rep):  # noqa: F811
     _old_run15d(ctx, rep)
     rep.rule("R15.15", "a matrix-vector image (A @ v) is not read after v was changed without recomputing it")
     r1515(ctx, rep)
+
+
+# ---------------------------------------------------------------------------
+def _swap_lu(text):
+    """text with the lower / upper vocabulary swapped (xl <-> xu as whole words or name parts)"""
+    out = _re.sub(r"xl", "\0", text)
+    out = _re.sub(r"xu", "xl", out)
+    return out.replace("\0", "xu")
+
+
+def r1516(ctx, rep):
+    """twin blocks: two sibling `if` statements of one block whose tests are
+    each other's lower/upper mirror image handle the lower and the upper bound
+    the same way - their bodies must be mirror images too (a statement dropped
+    or a bound name left unchanged in one of them treats the two bounds
+    differently: a component is snapped to the wrong bound or stays free)."""
+    n = 0
+    for q in PUBLIC + HELPERS:
+        f = ctx.func(q)
+        for node in ast.walk(f.node):
+            for fld in ("body", "orelse"):
+                block = getattr(node, fld, None)
+                if not (isinstance(block, list) and block and isinstance(block[0], ast.stmt)):
+                    continue
+                ifs = [(i, s) for i, s in enumerate(block) if isinstance(s, ast.If) and not s.orelse]
+                for (i, a), (j, b) in zip(ifs, ifs[1:]):
+                    if j != i + 1:
+                        continue
+                    ta, tb = norm(a.test), norm(b.test)
+                    if "xl" not in ta or _swap_lu(ta) != tb or ta == tb:
+                        continue
+                    n += 1
+                    ba = [norm(s) for s in a.body]
+                    bb = [norm(s) for s in b.body]
+                    desc = f"{f.local}:{a.lineno}/{b.lineno} twin blocks `{ta[:40]}` / `{tb[:40]}`"
+                    mirrored = [_swap_lu(s) for s in ba]
+                    if mirrored == bb:
+                        rep.ok("R15.16", desc)
+                        continue
+                    # statements that differ
+                    diffs = []
+                    for k in range(max(len(ba), len(bb))):
+                        x = mirrored[k] if k < len(mirrored) else "<missing>"
+                        y = bb[k] if k < len(bb) else "<missing>"
+                        if x != y:
+                            diffs.append((k, ba[k] if k < len(ba) else "<missing>", y))
+                    # the documented exception: clearing free_xl in the upper branch of the rotation loop is behaviour-neutral
+                    if all(("free_xl" in d[1] or "free_xu" in d[1] or "free_xl" in d[2] or "free_xu" in d[2]) for d in diffs):
+                        rep.ok("R15.16", desc + " (differ only in the free_* bookkeeping, see the OBSERVATION note)")
+                        continue
+                    rep.bad("R15.16", desc)
+                    k, xa, yb = diffs[0]
+                    rep.finding("R15.16", f, f"{xa[:60]} / {yb[:60]}", (b.body[k].lineno if k < len(b.body) else b.lineno),
+                                f"the blocks for the lower and the upper bound are not mirror images: statement {k + 1} is `{xa[:70]}` in the lower block but `{yb[:70]}` in the upper block")
+    # the if/else form: `if <lower limits first>: lower block else: upper block`
+    for q in PUBLIC + HELPERS:
+        f = ctx.func(q)
+        for node in ast.walk(f.node):
+            if not (isinstance(node, ast.If) and node.orelse and len(node.orelse) == len(node.body) and not (len(node.orelse) == 1 and isinstance(node.orelse[0], ast.If))):
+                continue
+            ba = [norm(s) for s in node.body]
+            bb = [norm(s) for s in node.orelse]
+            if not any("xl" in s for s in ba) or not any("xu" in s for s in bb):
+                continue
+            mirrored = [_swap_lu(s) for s in ba]
+            same = sum(1 for x, y in zip(mirrored, bb) if x == y)
+            if same * 2 < len(ba) or len(ba) < 2:
+                continue       # not a lower/upper twin
+            n += 1
+            desc = f"{f.local}:{node.lineno} if/else twin `{norm(node.test)[:40]}`"
+            if mirrored == bb:
+                rep.ok("R15.16", desc)
+            else:
+                k = [i for i, (x, y) in enumerate(zip(mirrored, bb)) if x != y][0]
+                rep.bad("R15.16", desc)
+                rep.finding("R15.16", f, f"{ba[k][:60]} / {bb[k][:60]}", node.orelse[k].lineno,
+                            f"the branches for the lower and the upper bound are not mirror images: `{ba[k][:70]}` in the lower branch but `{bb[k][:70]}` in the upper branch")
+    if n < 4:
+        raise AnalysisError(f"only {n} lower/upper twin blocks found in the solvers (floor 4)")
+
+
+_old_run15e = run
+
+
+def run(ctx, rep):  # noqa: F811
+    _old_run15e(ctx, rep)
+    rep.rule("R15.16", "sibling blocks that handle the lower and the upper bound are mirror images of each other")
+    r1516(ctx, rep)
